@@ -46,3 +46,59 @@ def in_library_cases(tier):
             yield {"hed_schema": _Obj(library=lib), "tag_entry": _Obj(name="Some-tag", attributes={"inLibrary": nm}),
                    "attribute_name": "inLibrary"}
         yield {"hed_schema": _Obj(library=lib), "tag_entry": _Obj(name="Some-tag", attributes={}), "attribute_name": "inLibrary"}
+
+
+# ---------------------------------------------------------------------------------------------- C09.tag_deepcopy
+_TAG_COPY_DEFS = ["(Definition/A, (Red, Blue))", "(Definition/B/#, (Label/#, (Item, Green)))",
+                  "(Definition/C/#, (Speed/# mph, Blue))", "(Definition/E)", "(Definition/N, (Black, (Yellow, (Purple))))"]
+_TAG_COPY_ANNOTATIONS = [
+    "Red", "Red, (Blue, Square)", "Def/A", "def/a, Square", "(Def/B/x, Square)", "(Square, (Def/C/3, Circle))",
+    "Def/E, (Def/N, (Def/A))", "Def/B/12, (Def/B/y, Square)", "((Square, (Def/N)), Circle)",
+    "(Def-expand/A, (Red, Blue))", "Square, ((Def-expand/B/x, (Label/x, (Item, Green))), Circle)", "(Def-expand/E), Def/A",
+    "Def/Zz, (Def/A/5, Square)",            # uses without an expansion: no cached content ever
+]
+_TAG_COPY_STATES = ["parsed", "expanded", "expanded_then_shrunk", "cache_filled_by_property_access"]
+
+
+def tag_deepcopy_cases(tier):
+    """C09.tag_deepcopy: real HedTag objects inside parsed annotations, in every expansion state (never expanded: no cached
+    content; expanded: the tag sits inside its cached expansion; shrunk again / property read: cached but not in the tree),
+    with an empty memo, a memo that already holds the tag, and a memo that already holds the tag's container.
+    'origin' (first key, so that it heads the recorded input) says how to rebuild the case."""
+    from hed.models import DefinitionDict, HedString
+    from rt.common import schema
+    sch = schema()
+    dd = DefinitionDict(_TAG_COPY_DEFS, sch)
+    texts = list(_TAG_COPY_ANNOTATIONS)
+    if tier != "quick":
+        from rt import c09
+        texts += [t for fam, t, ok in c09.gen_annotations(True) if t not in texts]
+
+    def build(text, state):
+        h = HedString(text, sch, dd)
+        if state in ("expanded", "expanded_then_shrunk"):
+            h.expand_defs()
+        if state == "expanded_then_shrunk":
+            h.shrink_defs()
+        if state == "cache_filled_by_property_access":
+            for t in h.get_all_tags():
+                t.expandable    # noqa - lazily fills _expandable without touching the tree
+        return h
+
+    for text in texts:
+        for state in _TAG_COPY_STATES:
+            ntags = len(build(text, state).get_all_tags())
+            for k in range(ntags):
+                for memo_kind in ("empty", "holds_tag", "holds_container"):
+                    h = build(text, state)
+                    tag = h.get_all_tags()[k]
+                    origin = {"annotation": text, "state": state, "tag": k, "tag_text": str(tag), "memo": memo_kind,
+                              "cached": tag._expandable is not None}
+                    if memo_kind == "empty":
+                        memo = {}
+                    elif memo_kind == "holds_tag":
+                        memo = {id(tag): HedString("Circle", sch).get_all_tags()[0]}
+                    else:
+                        other = HedString("(Triangle)", sch)
+                        memo = {id(tag._parent): other.children[0]}
+                    yield {"origin": origin, "self": tag, "memo": memo}
